@@ -1,9 +1,188 @@
-(** C03 — property theorems (under construction) *)
-From Coq Require Import List NArith ZArith Bool Arith.
+(** C03 — property theorems.  Every statement is closed: the base hash [H] of the tree and the
+    final span hash [HF] (hard-wired Keccak in bmt.Hasher.Hash) are universally quantified and
+    nothing is assumed about them. *)
+From Coq Require Import List NArith ZArith Bool Arith Lia.
 Import ListNotations.
-Require Import Aurora.Consts Aurora.C03.Ref Aurora.C03.Model.
+Require Import Aurora.Consts Aurora.C03.Ref Aurora.C03.Model Aurora.C03.Util Aurora.C03.Inv
+               Aurora.C03.Final Aurora.C03.Term Aurora.C03.PresUser Aurora.C03.Pool Aurora.C03.Seq Aurora.C03.Toy.
 
+(** ---- constants: bmtpool's configuration is the tree with D = 12 (8192 segments, 256 KiB) ---- *)
+Definition realD : nat := 12.
+Lemma consts_ok_C03 :
+  match size_to_params (Z.to_N Consts.boson_BmtBranches) with
+  | Some (c, d) => (d =? N.of_nat (S realD))%N && (Z.of_N c * Z.of_nat SEG =? Consts.boson_ChunkSize)%Z
+  | None => false
+  end
+  && (Consts.boson_HashSize =? Z.of_nat SEG)%Z && (Consts.boson_SectionSize =? Z.of_nat SEG)%Z
+  && (Z.of_nat (maxsize realD) =? Consts.boson_ChunkSize)%Z && (Consts.bmt_SpanSize =? 8)%Z
+  && (1 <=? Consts.bmtpool_Capacity)%Z = true.
+Proof. vm_compute. reflexivity. Qed.
+
+Definition hdr_span (hdr : list N) : list N := copy_at (zeros 8) 0 hdr.   (* SetHeader on a fresh Hasher *)
+
+(** the reference recursion is the node-indexed tree the proofs use *)
 Theorem C03_ref_is_node_tree : forall (H : list N -> list N) d data,
   length data = SEC * 2 ^ d -> bmt_root H d data = val H data d 0.
 Proof. exact bmt_root_val. Qed.
 Print Assumptions C03_ref_is_node_tree.
+
+(** SetHeader with an 8-byte header installs exactly that header *)
+Theorem C03_header8 : forall hdr : list N, length hdr = 8 -> hdr_span hdr = hdr.
+Proof.
+  intros hdr Hl. unfold hdr_span, copy_at. cbn [firstn app zeros repeat length Nat.sub Nat.add].
+  rewrite Hl. cbn [Nat.min skipn repeat]. rewrite app_nil_r. rewrite <- Hl. apply firstn_all.
+Qed.
+Print Assumptions C03_header8.
+
+(** empty input: the zerohashes[depth] shortcut of Hash is the reference hash of no data *)
+Theorem C03_zero_len : forall (H HF : list N -> list N) D span,
+  bmt_hash H HF D span [] = HF (span ++ zh H (S D)).
+Proof.
+  intros H HF D span. unfold bmt_hash. f_equal. f_equal.
+  pose proof (vl_root H D []) as E1. pose proof (vl_all_zero H D [] eq_refl) as E2.
+  unfold pdata, alld, msz, maxsize in E1. cbn [concat] in E1. now rewrite <- E1, E2.
+Qed.
+Print Assumptions C03_zero_len.
+
+(** which sections the caller starts, for every split of the writes: non-final [0, pos), final pos,
+    and the bytes those goroutines will read are the zero-padded data (stale buffer content beyond
+    the data is overwritten by the 64 zero bytes of Hash or never read) *)
+Theorem C03_seq_sections : forall (H HF : list N -> list N) D buf0 ns0 hdr ws, tree_ok D buf0 ns0 ->
+  let s := run H HF D (init buf0 ns0 hdr ws) (repeat CUser (length ws + 1)) in
+  let vb := if negb (fsize D ws =? 0) then Nat.min (fsize D ws + 64) (maxsize D) else 0 in
+  todo s = [] /\ live s = [] /\ size s = fsize D ws /\ pos s = pf D ws /\
+  (forall j, Sc j false s = Nat.b2n (j <? pf D ws)) /\
+  (forall j, Sc j true s = Nat.b2n (negb (fsize D ws =? 0) && (j =? pf D ws))) /\
+  firstn vb (buf s) = firstn vb (pad (maxsize D) (concat ws)).
+Proof. exact seq_sections. Qed.
+Print Assumptions C03_seq_sections.
+
+(** ALL schedules, safety: whatever the interleaving of the caller and the section goroutines, at
+    every moment at most one value has been sent on the result channel and it is the reference
+    root; Hash has returned nothing or the reference hash *)
+Theorem C03_conc_safety : forall (H HF : list N -> list N) D buf0 ns0 hdr ws sched, tree_ok D buf0 ns0 ->
+  let s := run H HF D (init buf0 ns0 hdr ws) sched in
+  (results s = [] \/ results s = [bmt_root H D (pad (maxsize D) (concat ws))]) /\
+  (out s = None \/ out s = Some (bmt_hash H HF D (hdr_span hdr) (concat ws))).
+Proof.
+  intros H HF D buf0 ns0 hdr ws sched Hok s.
+  exact (inv_safety H HF D ws hdr s (run_inv H HF D ws hdr _ sched (init_inv H HF D ws hdr buf0 ns0 Hok))).
+Qed.
+Print Assumptions C03_conc_safety.
+
+(** ALL schedules, result: when nothing is left to run, Hash has returned the reference hash, and
+    the tree is again a valid pool tree (buffer length, every toggle even) *)
+Theorem C03_conc_result : forall (H HF : list N -> list N) D buf0 ns0 hdr ws sched, tree_ok D buf0 ns0 ->
+  let s := run H HF D (init buf0 ns0 hdr ws) sched in
+  quiescent s ->
+  out s = Some (bmt_hash H HF D (hdr_span hdr) (concat ws)) /\ tree_ok D (buf s) (ns s).
+Proof.
+  intros H HF D buf0 ns0 hdr ws sched Hok s Q.
+  destruct (inv_quiescent H HF D ws hdr s (run_inv H HF D ws hdr _ sched (init_inv H HF D ws hdr buf0 ns0 Hok)) Q) as (A & B & C).
+  split; [exact A | split; assumption].
+Qed.
+Print Assumptions C03_conc_result.
+
+Theorem C03_toggles_even : forall (H HF : list N -> list N) D buf0 ns0 hdr ws sched, tree_ok D buf0 ns0 ->
+  let s := run H HF D (init buf0 ns0 hdr ws) sched in
+  quiescent s -> forall l i, l < D -> par (ns s (S l) i) = false.
+Proof.
+  intros H HF D buf0 ns0 hdr ws sched Hok s Q.
+  exact (proj2 (proj2 (C03_conc_result H HF D buf0 ns0 hdr ws sched Hok Q))).
+Qed.
+Print Assumptions C03_toggles_even.
+
+(** ALL schedules, termination: no step increases the measure, every state that is not quiescent
+    has a step that decreases it, so every execution can be completed and none is infinite; the
+    number of effective steps is at most (writes + 1) * (2^D (D + 2) + 1) *)
+Theorem C03_conc_terminates : forall (H HF : list N -> list N) D buf0 ns0 hdr ws sched, tree_ok D buf0 ns0 ->
+  let s := run H HF D (init buf0 ns0 hdr ws) sched in
+  mu D s <= (length ws + 1) * W D /\
+  (forall c, mu D (step H HF D s c) <= mu D s) /\
+  (forall c, next_choice s = Some c -> mu D (step H HF D s c) < mu D s) /\
+  (next_choice s = None -> quiescent s) /\
+  (forall fuel, mu D s <= fuel -> quiescent (drain H HF D fuel s)).
+Proof.
+  intros H HF D buf0 ns0 hdr ws sched Hok s.
+  pose proof (init_inv H HF D ws hdr buf0 ns0 Hok) as I0.
+  pose proof (run_inv H HF D ws hdr _ sched I0) as I.
+  split; [|split; [|split; [|split]]].
+  - rewrite <- (mu_init D ws hdr buf0 ns0). now apply (mu_run_le H HF D ws hdr).
+  - intros c. now apply (mu_step_le H HF D ws hdr).
+  - intros c. now apply (next_choice_dec H HF D ws hdr).
+  - apply next_choice_none.
+  - intros fuel. now apply (drain_quiescent H HF D ws hdr).
+Qed.
+Print Assumptions C03_conc_terminates.
+
+(** the packaged statement: every split of the writes, every schedule prefix, every initial buffer
+    and register content: the use returns hash(span || root(zero-padded data)) and leaves a valid tree *)
+Theorem C03_all_splits_all_schedules : forall (H HF : list N -> list N) D ws hdr buf0 ns0 sched fuel,
+  tree_ok D buf0 ns0 -> (length ws + 1) * W D <= fuel ->
+  exists tr', use_tree H HF D (buf0, ns0) hdr ws sched fuel
+              = Some (Some (bmt_hash H HF D (hdr_span hdr) (concat ws)), tr') /\
+              tree_ok D (fst tr') (snd tr').
+Proof. exact use_tree_correct. Qed.
+Print Assumptions C03_all_splits_all_schedules.
+
+(** the result does not depend on what the reused tree contained, nor on how the data was cut *)
+Theorem C03_stale_buffer : forall (H HF : list N -> list N) D hdr ws1 ws2 buf1 ns1 buf2 ns2 sched1 sched2 fuel,
+  tree_ok D buf1 ns1 -> tree_ok D buf2 ns2 -> concat ws1 = concat ws2 ->
+  (length ws1 + 1) * W D <= fuel -> (length ws2 + 1) * W D <= fuel ->
+  option_map fst (use_tree H HF D (buf1, ns1) hdr ws1 sched1 fuel) =
+  option_map fst (use_tree H HF D (buf2, ns2) hdr ws2 sched2 fuel).
+Proof.
+  intros H HF D hdr ws1 ws2 buf1 ns1 buf2 ns2 sched1 sched2 fuel O1 O2 Ec F1 F2.
+  destruct (use_tree_correct H HF D ws1 hdr buf1 ns1 sched1 fuel O1 F1) as (t1 & E1 & _).
+  destruct (use_tree_correct H HF D ws2 hdr buf2 ns2 sched2 fuel O2 F2) as (t2 & E2 & _).
+  rewrite E1, E2. cbn. unfold the_hash. now rewrite Ec.
+Qed.
+Print Assumptions C03_stale_buffer.
+
+(** trees handed from user to user through the pool channel *)
+Theorem C03_pool_reuse : forall (H HF : list N -> list N) D fuel us p,
+  p <> [] -> Forall (fun t => tree_ok D (fst t) (snd t)) p ->
+  Forall (fun u => user_cost D u <= fuel) us ->
+  pool_seq H HF D fuel p us = Some (map (expected H HF D) us).
+Proof. intros H HF D fuel. exact (pool_seq_correct H HF D fuel). Qed.
+Print Assumptions C03_pool_reuse.
+
+(** many hashers at the same time, each on the tree it received from the pool: any global
+    interleaving is, for hasher j, one of its own schedules *)
+Theorem C03_concurrent_users : forall (H HF : list N -> list N) D ss gsched j buf0 ns0 hdr ws,
+  nth_error ss j = Some (init buf0 ns0 hdr ws) -> tree_ok D buf0 ns0 ->
+  exists s, nth_error (grun H HF D ss gsched) j = Some s /\
+    (out s = None \/ out s = Some (bmt_hash H HF D (hdr_span hdr) (concat ws))) /\
+    (results s = [] \/ results s = [bmt_root H D (pad (maxsize D) (concat ws))]) /\
+    (quiescent s -> out s = Some (bmt_hash H HF D (hdr_span hdr) (concat ws)) /\ tree_ok D (buf s) (ns s)).
+Proof.
+  intros H HF D ss gsched j buf0 ns0 hdr ws Hn Hok.
+  exists (run H HF D (init buf0 ns0 hdr ws) (proj j gsched)). split; [now rewrite grun_proj, Hn|].
+  destruct (C03_conc_safety H HF D buf0 ns0 hdr ws (proj j gsched) Hok) as (A & B).
+  split; [exact B|]. split; [exact A|]. exact (C03_conc_result H HF D buf0 ns0 hdr ws (proj j gsched) Hok).
+Qed.
+Print Assumptions C03_concurrent_users.
+
+(** at bmtpool's parameters: capacity 256 KiB = ChunkSize *)
+Theorem C03_chunk_hasher : forall (H HF : list N -> list N) ws hdr buf0 ns0 sched fuel,
+  tree_ok realD buf0 ns0 -> (length ws + 1) * W realD <= fuel ->
+  Z.of_nat (maxsize realD) = Consts.boson_ChunkSize /\
+  exists tr', use_tree H HF realD (buf0, ns0) hdr ws sched fuel
+              = Some (Some (HF (hdr_span hdr ++ bmt_root H realD (pad (maxsize realD) (concat ws)))), tr') /\
+              tree_ok realD (fst tr') (snd tr').
+Proof.
+  intros H HF ws hdr buf0 ns0 sched fuel Hok Hf. split; [vm_compute; reflexivity|].
+  exact (use_tree_correct H HF realD ws hdr buf0 ns0 sched fuel Hok Hf).
+Qed.
+Print Assumptions C03_chunk_hasher.
+
+(** non-vacuity: a fresh tree is a valid tree, and a run with a concrete hash, three writes that
+    do not respect section boundaries, an over-long tail and a schedule prefix that interleaves
+    goroutines with the caller ends quiescent with the reference hash *)
+Example C03_hyps_satisfiable :
+  tree_ok 2 (fresh_buf 2) fresh_nodes /\
+  let ws := [toy_out 70 1%N; toy_out 100 2%N; toy_out 120 3%N] in
+  let sched := [CUser; CUser; CStart 0; CTok 0; CUser; CStart 1; CUser; CTok 0; CStart 0] in
+  option_map fst (use_tree toy toy 2 (fresh_buf 2, fresh_nodes) [1;2;3;4;5;6;7;8]%N ws sched 200)
+  = Some (Some (bmt_hash toy toy 2 [1;2;3;4;5;6;7;8]%N (concat ws))).
+Proof. split; [split; [reflexivity | intros; reflexivity] | vm_compute; reflexivity]. Qed.
